@@ -368,29 +368,31 @@ Definition range_arg (delta start : av) (ith : Z) : option av :=
   | None => None
   end.
 
+(* the first half of delta_from_arg_vals: the step and its sign *)
+Definition dfa_dc (llhs lhs : av) (rhs : option av) (must_be_unity : bool) : option (av * Z) :=
+  if must_be_unity then
+    match rhs with
+    | Some r =>
+        match av_cmp_single lhs r, av_from_int (av_type r) 1 with
+        | Some c, Some one =>
+            if 0 <? c then match av_negate one with Some d => Some (d, c) | None => None end
+            else Some (one, c)
+        | _, _ => None
+        end
+    | None => None
+    end
+  else
+    match av_sub lhs llhs with
+    | Some d => match av_null (av_type d) with
+                | Some z => match av_cmp_single d z with Some c => Some (d, c) | None => None end
+                | None => None end
+    | None => None
+    end.
+
 (* delta_from_arg_vals: Some (returned number, delta) *)
 Definition delta_from_arg_vals (llhs lhs : av) (rhs : option av) (must_be_unity : bool)
   : option (Z * av) :=
-  let dc :=
-    if must_be_unity then
-      match rhs with
-      | Some r =>
-          match av_cmp_single lhs r, av_from_int (av_type r) 1 with
-          | Some c, Some one =>
-              if 0 <? c then match av_negate one with Some d => Some (d, c) | None => None end
-              else Some (one, c)
-          | _, _ => None
-          end
-      | None => None
-      end
-    else
-      match av_sub lhs llhs with
-      | Some d => match av_null (av_type d) with
-                  | Some z => match av_cmp_single d z with Some c => Some (d, c) | None => None end
-                  | None => None end
-      | None => None
-      end in
-  match dc with
+  match dfa_dc llhs lhs rhs must_be_unity with
   | None => None
   | Some (delta, c) =>
       if c =? 0 then Some (-1, delta) else
